@@ -130,7 +130,17 @@ def run_case(case, workdir):
         info["preceded_by_another_preparation"] = True
     if kind in ("mf", "lattice"):
         with M.quiet():
-            pyscf_interface.prep_afqmc(mf, basis_coeff=basis, norb_frozen=nf, chol_cut=cut, integrals=ints)
+            ints_in = ints
+            if ints is not None and case.get("eri_layout"):
+                # the same two-electron integrals in another of the layouts pyscf produces / ao2mo.restore accepts
+                from pyscf import ao2mo as _ao
+                n_ = case["nsite"]
+                lay = case["eri_layout"]
+                h2 = {"4-index": lambda e: e, "4-fold": lambda e: _ao.restore(4, e, n_), "8-fold": lambda e: _ao.restore(8, e, n_),
+                      "full-matrix": lambda e: np.asarray(e).reshape(n_ * n_, n_ * n_)}[lay](np.asarray(ints["h2"]))
+                ints_in = dict(ints, h2=h2)
+                info["eri_layout"] = lay
+            pyscf_interface.prep_afqmc(mf, basis_coeff=basis, norb_frozen=nf, chol_cut=cut, integrals=ints_in)
     else:
         frozen = nf if nf else None
         if kind == "ccsd":
@@ -293,7 +303,8 @@ def make_cases(rng, tier):
     for mode in ("mo", "identity"):
         ne = rng.choice([(2, 2), (2, 1), (3, 2)])
         cases.append(dict(kind="lattice", system="hubbard-ring", nsite=rng.choice([4, 5]), nelec=list(ne), u=rng.choice([1.0, 2.0, 4.0]),
-                          seed=rng.randrange(1 << 30), chol_cut=1e-8, basis_mode=mode, fci=True))
+                          seed=rng.randrange(1 << 30), chol_cut=1e-8, basis_mode=mode, fci=True,
+                          eri_layout=("full-matrix" if mode == "mo" else rng.choice(["4-index", "4-fold", "8-fold"]))))
     if tier == "thorough":
         for _ in range(2):
             mol_case("mf", "H4ring", "6-31g", "rhf", fci=True, basis_mode="lowdin")
